@@ -75,7 +75,9 @@ class TraceGen:
             if kind_of(p) == "ipin":
                 return hd(p) and {"k": "in", "h": hd(p)}
             ih, ph = hd(p.instance), hd(p.inner_pin)
-            return ih and ph and {"k": "stored", "i": ih, "p": ph}
+            # (the caller names an instance pin either by the instance's own pin object or by a stand-in built from
+            # (instance, inner pin), which compares equal to it)
+            return ih and ph and {"k": "proxy" if r.random() < 0.35 else "stored", "i": ih, "p": ph}
         defs = [d for lib in n.libraries for d in lib.definitions]
         r.shuffle(defs)
         for d in defs[:12]:
